@@ -31,7 +31,13 @@ class Inst:
     self.subs = {}
     self.frees = {f["name"]: f for f in self.cd.get("frees", [])}
     for sb in self.cd["subs"]:
-      if sb["dims"]:
+      if len(sb["dims"]) > 1:
+        def mk(pre, dims):
+          if not dims:
+            return Inst(spec, sb["cls"], pre, self)
+          return [mk("%s[%d]" % (pre, i), dims[1:]) for i in range(dims[0])]
+        self.subs[sb["name"]] = mk("%s.%s" % (prefix, sb["name"]), sb["dims"])
+      elif sb["dims"]:
         cl = sb.get("cls_list") or [sb["cls"]] * sb["dims"][0]
         self.subs[sb["name"]] = [Inst(spec, cl[i], "%s.%s[%d]" % (prefix, sb["name"], i), self)
                                  for i in range(sb["dims"][0])]
@@ -40,8 +46,14 @@ class Inst:
 
   def all_insts(self):
     yield self
+    def flat(v):
+      if isinstance(v, list):
+        for x in v:
+          yield from flat(x)
+      else:
+        yield v
     for v in self.subs.values():
-      for x in (v if isinstance(v, list) else [v]):
+      for x in flat(v):
         yield from x.all_insts()
 
 
@@ -98,7 +110,7 @@ class Ref:
       i += 1
       if name in cur.subs:
         sub = cur.subs[name]
-        if isinstance(sub, list):
+        while isinstance(sub, list):
           st = path[i]
           i += 1
           k = st[1] if st[0] == "i" else self.ev(inst, st[1], env)
